@@ -257,6 +257,8 @@ fn families(a: &Args) -> Vec<Family> {
     let pre2 = pre.clone();
     let locate = move |idx: u64, pre: &Vec<u64>| -> (usize, u64) { let n = (0..=nmax).rev().find(|&n| pre[n] <= idx).unwrap(); (n, idx - pre[n]) };
     let loc2 = locate.clone();
+    let seven = SimpleFam::new(7..=7, false, false);
+    let seven2 = seven.clone();
     let dl = ListFam::new(3, 3, true);
     let ul = ListFam::new(3, 3, false);
     let (dl2, ul2) = (dl.clone(), ul.clone());
@@ -268,6 +270,14 @@ fn families(a: &Args) -> Vec<Family> {
             bounds: format!("graph6: {} in Graph (two histories), StableGraph (compact / vacancies), MatrixGraph (compact / removed id), GraphMap (three key permutations), Csr; decoding in all five types", small.bounds()),
             run: Box::new(move |idx, ctx| { let (n, e) = small.get(idx); g6_case(ctx, n, e, true) }),
             describe: Box::new(move |idx| { let (n, e) = small2.get(idx); json!({"graph6": {"n": n, "edges": e}}) }),
+        },
+        Family {
+            name: "graph6-7nodes",
+            thorough_only: true,
+            count: seven.count(),
+            bounds: format!("graph6: {} (same types)", seven.bounds()),
+            run: Box::new(move |idx, ctx| { let (n, e) = seven.get(idx); g6_case(ctx, n, e, true) }),
+            describe: Box::new(move |idx| { let (n, e) = seven2.get(idx); json!({"graph6": {"n": n, "edges": e}}) }),
         },
         Family {
             name: "graph6-0to70",
